@@ -1,2 +1,3 @@
+@refrac.setter
 def spec(self, value):
     self.refrac_.value = value
